@@ -5,8 +5,9 @@ from vf.harness import common as H
 
 PROPERTY = "C05"
 BOUNDS = {"all": "every built-in scalar type and alias x endian in {<,>,!}: decode of all w-byte inputs, encode of all integers in "
-                 "[-2^130, 2^130] (accept iff in range); LEB128: read of every 1..5 (quick) / 1..6 (thorough) byte string, write of every "
-                 "v in [-2^34, 2^34) (thorough 2^41) incl. well-formedness and minimality; wchar BMP non-surrogate; floats: bit identity "
+                 "[-2^130, 2^130] (accept iff in range); LEB128: read of every 1..11 (quick) / 1..19 (thorough) byte string, write of every "
+                 "v in [-2^71, 2^71) (thorough 2^130) incl. well-formedness and minimality; wchar BMP non-surrogate symbolic, surrogate "
+                 "pairs only as the concrete sample strings of make_wchar_pairs (chosen by an engine decision variable); floats: bit identity "
                  "of non-NaN patterns only (IEEE conversion is C code inside struct); endianness switch after load for interpreted and "
                  "compiled structures"}
 
@@ -147,6 +148,52 @@ def make_leb_write(case):
     return run
 
 
+PAIR_TEXTS = ["\U0001F600", "a\U00010000b", "\U0010FFFF\U0001F600", "\uFFFD\U0001D11E"]
+
+
+def make_wchar_pairs(case):
+    """UTF-16 above the BMP (surrogate pairs) in every array form; concrete sample texts, picked by a decision variable."""
+    from dissect.cstruct import cstruct
+    endian, form = case["endian"], case["form"]
+    enc = "utf-16-le" if endian == "<" else "utf-16-be"
+
+    def run(ctx):
+        text = PAIR_TEXTS[ctx.choose("sample", len(PAIR_TEXTS))]
+        raw = text.encode(enc)
+        units = len(raw) // 2
+        cs = cstruct(endian=endian)
+        if form == "fixed":
+            cs.load(f"struct test {{ wchar x[{units}]; uint8 t; }};", compiled=case["compiled"])
+            data = raw + b"\x7f"
+        elif form == "nul":
+            cs.load("struct test { wchar x[]; uint8 t; };", compiled=case["compiled"])
+            data = raw + b"\x00\x00\x7f"
+        elif form == "expr":
+            cs.load("struct test { uint8 n; wchar x[n]; uint8 t; };", compiled=case["compiled"])
+            data = bytes([units]) + raw + b"\x7f"
+        else:
+            t = cs.wchar[None] if form == "bare-nul" else cs.wchar[units]
+            data = raw + (b"\x00\x00" if form == "bare-nul" else b"")
+            try:
+                v = t(data)
+            except Exception as e:  # noqa: BLE001
+                ctx.check("valid UTF-16 with surrogate pairs decodes", False, H.classify(e))
+                return
+            ctx.check("decoded text == UTF-16 decoding of the input", v == text, f"{v!r}")
+            ctx.check("encoding is the inverse", t.dumps(v) == data)
+            return
+        s = ctx.stream(data + b"\xee")
+        try:
+            v = cs.test.read(s)
+        except Exception as e:  # noqa: BLE001
+            ctx.check("valid UTF-16 with surrogate pairs decodes", False, H.classify(e))
+            return
+        ctx.check("decoded text == UTF-16 decoding of the input", v.x == text, f"{v.x!r}")
+        ctx.check("the member after the string is read from the right place", v.t == 0x7f and s.tell() == len(data))
+        ctx.check("encoding is the inverse", v.dumps() == data)
+    return run
+
+
 SWITCH_DEF = """
 enum E : uint16 { A = 1, B = 0x100 };
 struct inner { uint16 x; int24 y; };
@@ -196,11 +243,15 @@ def cases(tier, seed):
     for name, T in TABLE.items():
         for endian in "<>!":
             yield {"label": f"{name} {endian}", "name": name, "endian": endian, "T": T}
-    kmax = 5 if tier == "quick" else 6
+    kmax = 11 if tier == "quick" else 19
     for signed in (False, True):
         for k in range(1, kmax + 1):
             yield {"label": f"leb-read s={signed} k={k}", "signed": signed, "k": k, "endian": "<>"[k % 2], "make": "make_leb"}
-        yield {"label": f"leb-write s={signed}", "signed": signed, "bits": 34 if tier == "quick" else 41, "endian": "<", "make": "make_leb_write"}
+        yield {"label": f"leb-write s={signed}", "signed": signed, "bits": 71 if tier == "quick" else 130, "endian": "<", "make": "make_leb_write"}
+    for endian in "<>":
+        for form in ("fixed", "nul", "expr", "bare-nul", "bare-fixed"):
+            for compiled in ((False, True) if not form.startswith("bare") else (False,)):
+                yield {"label": f"wchar-pairs {form} {endian}", "endian": endian, "form": form, "compiled": compiled, "make": "make_wchar_pairs"}
     for compiled in (False, True):
         for first, second in (("<", ">"), (">", "<"), ("<", "!")):
             yield {"label": f"endian-switch {first}->{second} compiled={compiled}", "compiled": compiled, "first": first, "second": second,
